@@ -209,8 +209,9 @@ type sessSpec struct {
 	M         int   `json:"m"`  // calls per caller
 	Notifiers int   `json:"notifiers"`
 	NotifM    int   `json:"notif_m"`
-	Big       bool  `json:"big"` // some payloads of ~100 KB
-	Raw       bool  `json:"raw"` // NewRawStream over a coalescing transport instead of NewStream over the re-chunking one
+	Big       bool  `json:"big"`    // some payloads of ~100 KB
+	Manual    bool  `json:"manual"` // side B is the harness speaking the wire protocol in alternative JSON spellings (manual.go)
+	Raw       bool  `json:"raw"`    // NewRawStream over a coalescing transport instead of NewStream over the re-chunking one
 }
 
 type kv struct {
@@ -703,10 +704,29 @@ func runSession(spec sessSpec, wdMs int) *sessResult {
 			outstanding: map[int]bool{}, seenCall: map[string]int{}, notes: map[int][]int{}, replySent: map[string]bool{}, ids: map[string]string{}}
 	}
 	a := mk("A", &end{r: ba, w: ab}, spec.Seed+11)
-	b := mk("B", &end{r: ab, w: ba}, spec.Seed+12)
+	var b *endpoint
+	var mp *manualPeer
+	if spec.Manual {
+		b = &endpoint{s: s, name: "B", rnd: rand.New(rand.NewSource(spec.Seed + 12)),
+			outstanding: map[int]bool{}, seenCall: map[string]int{}, notes: map[int][]int{}, replySent: map[string]bool{}, ids: map[string]string{}}
+		mp = &manualPeer{s: s, ep: b, in: ab, out: ba, raw: spec.Raw, waiting: map[string]chan desc{}, done: make(chan struct{})}
+		s.stat("manual_peer_sessions", 1)
+	} else {
+		b = mk("B", &end{r: ab, w: ba}, spec.Seed+12)
+	}
 	a.peer, b.peer = b, a
 	a.conn.Go(context.Background(), a.handle)
-	b.conn.Go(context.Background(), b.handle)
+	bDone := func() <-chan struct{} {
+		if mp != nil {
+			return mp.done
+		}
+		return b.conn.Done()
+	}
+	if mp != nil {
+		go mp.readLoop()
+	} else {
+		b.conn.Go(context.Background(), b.handle)
+	}
 	stop := make(chan struct{})
 	var fl sync.WaitGroup
 	fl.Add(2)
@@ -727,7 +747,20 @@ func runSession(spec sessSpec, wdMs int) *sessResult {
 		}
 	}
 	start(a, spec.NA, 0)
-	start(b, spec.NB, 100)
+	if mp != nil {
+		for i := 0; i < spec.NB; i++ {
+			wg.Add(1)
+			r := rand.New(rand.NewSource(spec.Seed*1000 + 100 + int64(i)))
+			go func(i int) { defer wg.Done(); mp.caller(i, r) }(i)
+		}
+		for i := 0; i < spec.Notifiers; i++ {
+			wg.Add(1)
+			r := rand.New(rand.NewSource(spec.Seed*1000 + 600 + int64(i)))
+			go func(i int) { defer wg.Done(); mp.notifier(i, r) }(i)
+		}
+	} else {
+		start(b, spec.NB, 100)
+	}
 	early := false
 	if !waitWG(&wg, time.Duration(wdMs*3)*time.Millisecond) {
 		s.inconclusive("session watchdog: callers still running after %d ms; templ goroutines: %s", wdMs*3, templStacks())
@@ -736,8 +769,12 @@ func runSession(spec sessSpec, wdMs int) *sessResult {
 	select {
 	case <-a.conn.Done():
 		s.violate("conc/connection-failed", "connection A shut down during the session: %v", a.conn.Err())
-	case <-b.conn.Done():
-		s.violate("conc/connection-failed", "connection B shut down during the session: %v", b.conn.Err())
+	case <-bDone():
+		if mp == nil {
+			s.violate("conc/connection-failed", "connection B shut down during the session: %v", b.conn.Err())
+		} else {
+			s.violate("conc/connection-failed", "the harness peer's reader stopped during the session (A closed the stream)")
+		}
 	default:
 	}
 	close(stop)
@@ -775,13 +812,15 @@ func runSession(spec sessSpec, wdMs int) *sessResult {
 	}, 10*time.Second)
 	okB := waitUntil(func() bool {
 		select {
-		case <-b.conn.Done():
+		case <-bDone():
 			return true
 		default:
 			return false
 		}
 	}, 10*time.Second)
-	_ = b.conn.Close()
+	if mp == nil {
+		_ = b.conn.Close()
+	}
 	if !okA || !okB {
 		s.violate("conc/no-shutdown", "Done() not closed 10 s after Close (A done=%v, B done=%v); templ goroutines: %s", okA, okB, templStacks())
 	}
@@ -886,6 +925,9 @@ func (s *session) finalChecks(a, b *endpoint, ab, ba *pipe) {
 		}
 	}
 	for _, e := range []*endpoint{a, b} {
+		if e.conn == nil {
+			continue // the harness peer has no Conn
+		}
 		switch n := pendingLen(e.conn); {
 		case n < 0:
 			s.inconclusive("cannot observe conn.pending by reflection")
